@@ -120,8 +120,9 @@ class Ctx(object):
     Stops early (recording it) when the soft wall-clock limit is exceeded -
     that only shrinks coverage, it is never a verdict."""
     n = self.share(quick, thorough)
+    floor = max(16, n // 8)   # always run a minimum, whatever the clock says
     for i in range(n):
-      if (i & 31) == 0 and self.out_of_time():
+      if i >= floor and (i & 15) == 0 and self.out_of_time():
         self.truncated = True
         self.counters["budget_truncated_by_time"] += 1
         return
